@@ -136,7 +136,7 @@ func c20Backup(ctx *Ctx) error {
 	}
 	r := rand.New(rand.NewSource(ctx.Seed))
 	for i := 0; i < ctx.Cases; i++ {
-		rs := rsyncErr == nil && i%4 == 3
+		rs := rsyncErr == nil && i%4 == 3 && (ctx.Tier == "thorough" || ctx.Seed%4 == 0)
 		runC20Case(ctx, genC20Case(r, rs))
 	}
 	// a backup location that belongs to another store
@@ -149,6 +149,10 @@ func c20Env(dir string, rsync bool) *hubEnv {
 	e.BackupLocation = filepath.Join(dir, "backup")
 	e.BackupSchedule = "0 0 1 1 *"
 	e.BackupRsync = rsync
+	if rsync {
+		// rsync -z copies the (sparse, mostly empty) value log byte by byte: keep it small
+		e.ValueLogFileSize = 4 << 20
+	}
 	return &hubEnv{e}
 }
 
